@@ -64,6 +64,14 @@ func generate(w *mon.W) {
 		w.Do(s, func(r *mon.R) { Check(s, r) })
 		return !w.Stopped()
 	})
+	// characters that become a semicolon, a quote, a backslash, … when cut down to
+	// one byte, between statements and inside their tokens
+	for _, ch := range gen.LowByteLookalikes {
+		for _, tmpl := range []string{"T%sU", "T | count%s U | count", "let a = 1%slet b = 2; T", "T | where s == 'x%sy'; U", "T | where `c%sd` == 1; U", "T // c%sd\n; U", "%s;%s"} {
+			s := strings.ReplaceAll(tmpl, "%s", ch)
+			w.Do(s, func(r *mon.R) { Check(s, r) })
+		}
+	}
 	// long runs of faulty and of well-formed statements, then one more statement
 	for _, unit := range []string{"!;", "T | where (;", "let = 1;", "T | bogus;", "#;", "T | take 1.5;", "T;", "let a = 1;", ";"} {
 		for _, k := range []int{1, 5, 9, 10, 11, 12, 20, 50, 100} {
